@@ -19,10 +19,11 @@ Expected(e) ==
     [] e.op = "iadd"           -> IAdd(st, e.args[1], e.args[2])
     [] e.op = "saveload"       -> SaveLoad(st, e.args[1])
     [] e.op = "load_without_output" -> LoadNoOutput(st, e.args[1])
+    [] e.op = "remove_module"  -> RemoveMod(st, e.args[1], e.args[2])
     [] e.op = "set_note_mod"   -> SetNoteMod(st, e.args[1], e.args[2])
     [] e.op = "get_note_mod"   -> GetNoteMod(st, e.args[1])
 
-Ops == {"attach", "new_module", "attach_end", "attach_none", "attach_pattern", "iadd", "saveload", "load_without_output", "set_note_mod", "set_note_num", "get_note_mod"}
+Ops == {"attach", "new_module", "attach_end", "attach_none", "attach_pattern", "iadd", "saveload", "load_without_output", "remove_module", "set_note_mod", "set_note_num", "get_note_mod"}
 RetOK(e, r) ==
   CASE e.op = "get_note_mod" -> r.outcome # "ok" \/ e.ret \in r.ret
     [] e.op \in {"attach", "new_module", "attach_end", "attach_pattern"} -> r.outcome # "ok" \/ e.ret = r.ret
@@ -50,7 +51,8 @@ Step ==
      ELSE LET r == Expected(e)  got == Norm(e.post)
               g1 == e.outcome = r.outcome
               g2 == got \in r.posts
-              g3 == IF \E P \in 1..2 : Headless(st, P) \/ e.op = "load_without_output" THEN CoherentH(got) ELSE Coherent(got)
+              g3 == IF (\E P \in 1..2 : Headless(st, P)) \/ Stale(st) # {} \/ e.op \in {"load_without_output", "remove_module"}
+                    THEN CoherentH(got) ELSE Coherent(got)
               g4 == RetOK(e, r) IN
           /\ Check(g1, "outcome", r.outcome, e.outcome)
           /\ Check(g2, "post-state", SetToSeq(r.posts), got)
